@@ -239,6 +239,12 @@ func (vc *VC) atCall(f *Frame, callee string, args []SV, pc string, st *State, p
 			continue
 		}
 		env := vc.top.env(st, vc.top.entrySt, nil)
+		// param:NAME keeps naming the enclosing function's own parameter when the call's argN shadows it
+		for k, v := range env.roots {
+			if !strings.Contains(k, ":") {
+				env.roots["param:"+k] = v
+			}
+		}
 		for j, a := range args {
 			env.roots[fmt.Sprintf("arg%d", j)] = a
 		}
@@ -614,6 +620,19 @@ func (f *Frame) callFunctype(x *ssa.Call, fc *Contract, t types.Type, args []SV,
 		trn := "tr." + short
 		cur := vc.ghostTerm(st, trn, "Tr."+short, "")
 		st.ghost[trn] = vc.def(sanitize(trn), "Tr."+short, fmt.Sprintf("(cons.%s %s %s)", short, ev, cur))
+		// monitors on a callback type are stepped like monitors on an interface
+		var names []string
+		for name := range vc.eng.monSorts {
+			names = append(names, name)
+		}
+		sort.Strings(names)
+		for _, name := range names {
+			if vc.eng.monIface[name] == short && vc.monActive(name) {
+				srt := vc.eng.monSorts[name]
+				mc := vc.ghostTerm(st, name, srt, "")
+				st.ghost[name] = vc.def(sanitize(name), srt, fmt.Sprintf("(%s.step %s %s)", name, mc, ev))
+			}
+		}
 	}
 	for _, m := range fc.Modifies {
 		if strings.HasPrefix(m, "*arg") {
